@@ -317,7 +317,7 @@ func (x *Exec) merge(ins []incoming, hint string) (*Term, *State) {
 	for c := range out.cells {
 		v := base.cells[c]
 		for i := len(ins) - 2; i >= 0; i-- {
-			v = iteSym(ins[i].cond, ins[i].st.cells[c], v)
+			v = x.mergeSyms(ins[i].cond, ins[i].st.cells[c], v)
 		}
 		out.cells[c] = x.vc.nameSym("phi."+c.name, v)
 	}
@@ -479,10 +479,14 @@ func (x *Exec) havoc(fr *Frame, ns, old *State, ms *ModSet, reach *Term, hint st
 		if !ok {
 			continue
 		}
-		if cur.LV != nil {
+		if cur.LV != nil && kindOf(id.t) != KPtr {
 			continue
 		}
 		nv := x.freshSym(id.t, "c."+id.name, ns.ctr, reach)
+		if cur.LV != nil {
+			// a pointer cell that held an executor-level pointer: after the loop it is some pointer value
+			nv = &Sym{T: id.t, L: []*Term{x.vc.fresh("c."+id.name, SInt)}}
+		}
 		if kindOf(id.t) == KSlice && cur.L[1].Lit != nil && cur.L[1].Lit.Sign() == 0 && ms.offStable[a] {
 			// every assignment in the region is an append/make/nil: the offset stays 0
 			nv = &Sym{T: nv.T, L: []*Term{nv.L[0], cur.L[1], nv.L[2]}}
@@ -587,7 +591,7 @@ func (x *Exec) execBlock(fr *Frame, n vnode, reach *Term, st *State, pending map
 				if v == nil {
 					v = ev
 				} else {
-					v = iteSym(mkOr(cs...), ev, v)
+					v = x.mergeSyms(mkOr(cs...), ev, v)
 				}
 			}
 			if v == nil {
@@ -971,4 +975,63 @@ func (x *Exec) typeByName(name string) types.Type {
 		}
 	}
 	panic("typeByName: type not found: " + name)
+}
+
+// ---------- pointers to slice elements ----------
+
+// dualStructTypes: struct types T for which some &s[i] (s []T or *[n]T) is used as a pointer value
+// (stored, returned, compared, passed) rather than only dereferenced in place.
+func (ld *Loaded) dualStructTypes() map[string]bool {
+	if ld.duals != nil {
+		return ld.duals
+	}
+	ld.duals = map[string]bool{}
+	for _, fn := range ld.funcs {
+		for _, b := range fn.Blocks {
+			for _, in := range b.Instrs {
+				ia, ok := in.(*ssa.IndexAddr)
+				if !ok {
+					continue
+				}
+				el := ia.Type().Underlying().(*types.Pointer).Elem()
+				if kindOf(el) != KStruct {
+					continue
+				}
+				for _, r := range *ia.Referrers() {
+					switch u := r.(type) {
+					case *ssa.FieldAddr, *ssa.DebugRef:
+					case *ssa.UnOp:
+					case *ssa.Store:
+						if u.Val == ssa.Value(ia) {
+							ld.duals[typeName(el)] = true
+						}
+					default:
+						ld.duals[typeName(el)] = true
+					}
+				}
+			}
+		}
+	}
+	return ld.duals
+}
+
+// reify turns an executor-level pointer into a pointer value.
+func (x *Exec) reify(s *Sym) *Sym {
+	if s.LV == nil {
+		return s
+	}
+	lv := s.LV
+	if lv.Root == RElem && lv.Off == 0 && lv.Sub == nil && lv.Byte == nil && kindOf(lv.RootT) == KStruct && types.Identical(lv.T, lv.RootT) && dualTypes[typeName(lv.RootT)] {
+		x.vc.theories["eref"] = true
+		t := x.vc.name("eref", app(SInt, "eref", lv.Ref, lv.Idx))
+		return scalar(s.T, t)
+	}
+	panic("executor-level pointer cannot be turned into a value: " + lv.String())
+}
+
+func (x *Exec) mergeSyms(c *Term, a, b *Sym) *Sym {
+	if (a.LV != nil || b.LV != nil) && !(a.LV != nil && b.LV != nil && a.LV.String() == b.LV.String()) {
+		a, b = x.reify(a), x.reify(b)
+	}
+	return iteSym(c, a, b)
 }
